@@ -128,7 +128,8 @@ SPEC = {
     ],
     "assumptions": ["every MemPool / TxTracker method is atomic under its mutex, so an interleaving of connection goroutines is a sequence of these steps (a -race stress run supports it in the thorough tier)",
                     "'at its next activity' is a runtime liveness: a connection's check runs when its peer sends something",
-                    "a transaction body has at least one input (a zero-input body is never recognised as held)"],
+                    "a transaction body has at least one input (a zero-input body is never recognised as held)",
+                    "the set of connections is fixed per history: every untrusted connection is one the node lists (block clean-up reaches its tracker); how untrusted connections are dialled, monitored and dropped (monitorUntrustedNodes, dial timing) is not modelled - a seeded change there (seeded/C14_5: a peer dropped from the list while its slow dial is in progress keeps running unlisted) is not caught"],
     "rule": "interleavings of inv announcements of overlapping txid sets from the trusted and 1-3 untrusted connections, tracker checks, body arrivals (trusted / untrusted), confirmations, clock advances around the 3 s window; distinct = distinct (cfg, ops)",
 }
 
